@@ -41,6 +41,11 @@ def hourView {D : Type} (ts : D → Int) : ViewFn D (Option D) := fun h k =>
   | none => none
   | some d => (h.take (k + 1)).find? (fun x => ts x == ts d - ts d % 3600)
 
+/-- the same lookup against Deribit's own frame `book` (rows stamped with whole hours, possibly before the first bar):
+    `self._data.loc[timestamp.floor("1h")]` at a bar with time `now` -/
+def hourLookup {R : Type} (book : List (Int × R)) (now : Int) : Option (Int × R) :=
+  book.find? (fun x => x.1 == now - now % 3600)
+
 /-- several things read at once -/
 def pairView {D V W : Type} (v : ViewFn D V) (w : ViewFn D W) : ViewFn D (V × W) := fun h k => (v h k, w h k)
 
